@@ -65,4 +65,5 @@ b2f388a C19
 9df52d6 C05
 7cc02bb C01
 b420852 C13
+9244933 C04
 LIST
